@@ -8,57 +8,7 @@ from ..jobs import SmtResult
 from ..spec.jaqal_grammar import build_reference
 
 
-def to_cnf(prods, start):
-    nts = {l for l, _ in prods}
-    P = []
-    cnt = [0]
-    for l, r in prods:
-        r = tuple(r)
-        while len(r) > 2:
-            cnt[0] += 1
-            n = f"_b{cnt[0]}"
-            P.append((n, r[-2:]))
-            nts.add(n)
-            r = r[:-2] + (n,)
-        P.append((l, r))
-    nullable = set()
-    ch = True
-    while ch:
-        ch = False
-        for l, r in P:
-            if l not in nullable and all(x in nullable for x in r):
-                nullable.add(l)
-                ch = True
-    Q = set()
-    for l, r in P:
-        if len(r) == 0:
-            continue
-        if len(r) == 1:
-            Q.add((l, r))
-        else:
-            a, b = r
-            Q.add((l, r))
-            if a in nullable:
-                Q.add((l, (b,)))
-            if b in nullable:
-                Q.add((l, (a,)))
-    unit = {n: {n} for n in nts}
-    ch = True
-    while ch:
-        ch = False
-        for l, r in Q:
-            if len(r) == 1 and r[0] in nts:
-                for n in nts:
-                    if l in unit[n] and r[0] not in unit[n]:
-                        unit[n].add(r[0])
-                        ch = True
-    G = {n: set() for n in nts}
-    for n in nts:
-        for m in unit[n]:
-            for l, r in Q:
-                if l == m and not (len(r) == 1 and r[0] in nts):
-                    G[n].add(r)
-    return G, nts, (start in nullable)
+from ..spec.cfg import to_cnf  # noqa: E402
 
 
 def cyk(G, nts, start, nullable_start, toks, terms, L, tag):
